@@ -527,7 +527,7 @@ fn palette() -> Vec<(Val, Option<Vec<u8>>)> {
 }
 
 /// equal, or — for floats and temporal values — another spelling of the same value
-fn text_cell_equivalent(v: &Val, got: &Cell, want: &Cell) -> bool {
+pub(crate) fn text_cell_equivalent(v: &Val, got: &Cell, want: &Cell) -> bool {
     if got == want {
         return true;
     }
@@ -752,7 +752,7 @@ pub fn build(quick: bool) -> Check {
     Check {
         id: "C06",
         level: "model_checking",
-        rule: "values at the public to_mysql_text seam, decoded by refwire and by mysql_common's TextValue: u8/i8/u16/i16 exhaustive (u32/i32/finite f32 exhaustive in thorough); u64/i64/usize/isize/f64/f32 over all 2^k, 2^k+-1, 10^k+-1, d*10^k, repdigits and digit runs of every length, every value -20000..70000, m*10^k for every decimal exponent, bounds, subnormals, non-terminating fractions; every calendar date of years 0..9999, every second of a day x 4 microsecond values, every second of 0..838:59:59 x 4 microsecond values, 22 microsecond values of every decimal shape at further times and durations; byte strings of every length 0..300, 65534..65537 (and 2^24-1..2^24+1 in thorough) x 6 leading bytes incl. 0xFB..0xFF; Option, &T, String/str/Vec<u8>, mysql_common::Value variants; NULL vs \"\" vs \"NULL\". Through rows: every arrangement of <= 3 cells over a 15-value mixed palette and rotations for shapes up to 3x4, via write_col and write_row; a refused text value (invalid generic date, negative generic time) at each column followed by a replacement. Non-trivial = beyond what the unit tests sample (1, MAX, one date).".into(),
+        rule: "values at the public to_mysql_text seam, decoded by refwire and by mysql_common's TextValue: u8/i8/u16/i16 exhaustive (u32/i32/finite f32 exhaustive in thorough); u64/i64/usize/isize/f64/f32 over all 2^k, 2^k+-1, 10^k+-1, d*10^k, repdigits and digit runs of every length, every value -20000..70000, m*10^k for every decimal exponent, bounds, subnormals, non-terminating fractions; every calendar date of years 0..9999, every second of a day x 4 microsecond values, every second of 0..838:59:59 x 4 microsecond values, 22 microsecond values of every decimal shape at further times and durations; byte strings of every length 0..300, 65534..65537 (and 2^24-1..2^24+1 in thorough) x 6 leading bytes incl. 0xFB..0xFF; Option, &T, String/str/Vec<u8>, mysql_common::Value variants; NULL vs \"\" vs \"NULL\". Through rows: every arrangement of <= 3 cells over a 15-value mixed palette and rotations for shapes up to 3x4, via write_col and write_row; a refused text value (invalid generic date, negative generic time) at each column followed by a replacement. Values in context: every sequence of <= 3 (thorough: 4) events on one connection (rows of other shapes incl. all-NULL / alternating NULLs / 300- and 70000-byte cells, a refused cell, a new resultset behind finish_one with the same or other columns, behind a completion, behind a zero-column set, a new command in the same or the other protocol, finish_error) followed by a probe row of characteristic values for nine column types; every row of the conversation must decode cell for cell to what was written. Non-trivial = beyond what the unit tests sample (1, MAX, one date).".into(),
         assumptions: vec![
             "a conformant client parses numeric text with the same-width standard parser; floats must round-trip bit-exactly".into(),
             "64-bit numeric domains are covered at lattices, not exhaustively".into(),
@@ -760,7 +760,14 @@ pub fn build(quick: bool) -> Check {
         bounds: json!({"row_cells_exhaustive": 3, "palette": p}),
         exhaustive: true,
         caps_hit: vec![],
-        families: { let mut f = families; f.push(Box::new(super::aftermath::Aftermath { prop: "C06" })); f },
-        required: vec!["aftermath_recovered", "scalar_values", "dates", "times_of_day", "durations", "strings_beyond_65535", "row_arrangements", "text_recoveries"],
+        families: {
+            let mut f = families;
+            f.push(Box::new(super::aftermath::Aftermath { prop: "C06" }));
+            for d in 1..=(if quick { 3 } else { 4 }) {
+                f.push(Box::new(super::context::ContextWalks { prop: "C06", depth: d, start_bin: false }));
+            }
+            f
+        },
+        required: vec!["aftermath_recovered", "context_walks", "scalar_values", "dates", "times_of_day", "durations", "strings_beyond_65535", "row_arrangements", "text_recoveries"],
     }
 }
